@@ -42,6 +42,7 @@ type Plan struct {
 	TruncAt    int  // >= 0: the stream ends here (peer died)
 	ErrAt      int  // >= 0: reads touching this offset fail with ErrSimIO
 	Seekable   bool
+	Start      int // the reader is positioned here when handed over (bytes before it were consumed by someone else)
 }
 
 func (p Plan) Faulted() bool { return p.TruncAt >= 0 || p.ErrAt >= 0 }
@@ -59,6 +60,9 @@ func (p Plan) String() string {
 	}
 	if p.ErrAt >= 0 {
 		s += "+err@" + itoa(p.ErrAt)
+	}
+	if p.Start > 0 {
+		s += "+start@" + itoa(p.Start)
 	}
 	return s
 }
@@ -123,7 +127,7 @@ type SeekReader struct{ *Reader }
 // NewReader returns the reader for a plan: a *Reader, or a *SeekReader when
 // the plan says seekable.
 func NewReader(data []byte, plan Plan) (io.Reader, *Reader) {
-	r := &Reader{data: data, plan: plan}
+	r := &Reader{data: data, plan: plan, off: plan.Start}
 	if plan.Seekable {
 		return &SeekReader{r}, r
 	}
